@@ -41,8 +41,8 @@ def gates(tier):
 
 
 def gen_case(rng, spec):
-    if rng.random() < 0.02:
-        N = rng.choice([300, 700, 1100])
+    if rng.random() < 0.03:
+        N = rng.choice([300, 700, 1100, 1100])
         sym = rng.choice("ab")
         form = rng.choice(["%s{%d}" % (sym, N), "[%sx]{%d}" % (sym, N), "%s{%d,}" % (sym, N), "(%s|x%s){%d}" % (sym, sym, N // 2)])
         if form.startswith("("):
@@ -119,6 +119,13 @@ def gen_case(rng, spec):
         return ["grp", node(d - 1)]
 
     ast = node(rng.randint(1, 4))
+    if rng.random() < 0.04:
+        # nested repetition whose inner loop has to go BACK to an earlier state before it can accept: (a*b)*a, (a?(a*b))*c
+        a, b, c = (rng.choice(cs) for _ in range(3))
+        inner = ["cat", [["rep", ["lit", a], 0, None], ["lit", b]]]
+        if rng.random() < 0.4:
+            inner = ["cat", [["rep", ["lit", a], 0, 1], ["grp", inner]]]
+        ast = ["cat", [["rep", ["grp", inner], 0, None], ["lit", rng.choice([a, c])]]]
     # a second pattern compiled with the SAME charset object (as LarkStuff does for every terminal of a grammar)
     ast2 = ["cat", [rng.choice([["dot"], cls()]), node(rng.randint(0, 2))]]
     if ast2[1][0][0] == "cls":
